@@ -120,8 +120,8 @@ add("C10", "exploration",
     "failing/printing/non-terminating constexpr bodies, option vectors as dataclass and dict): compile_code must "
     "return within a cap, raise nothing, return a well-formed verdict with consistent statistics or an in-range "
     "position, and leave no child process.",
-    "Wall-clock caps are generous and cap hits must reproduce twice; real astroid inference (no speed instrumentation).",
-    "property-based robustness testing / fuzzing (Hypothesis): mutation + grammar-of-invalid-inputs with a validity-of-verdict oracle",
+    "Caps are CPU time of the calling process plus a generous wall-clock limit, re-firing every second; cap hits must reproduce twice; real astroid inference (no speed instrumentation). The atheris campaigns are approximately, not exactly, a function of VERIF_SEED: a violation they find is judged again from the saved case before it is reported.",
+    "property-based robustness testing / fuzzing (Hypothesis; thorough tier adds two coverage-guided atheris/libFuzzer campaigns, pv/fuzz_c10.py): mutation + grammar-of-invalid-inputs + token-dictionary fuzzing with a validity-of-verdict oracle inside the target",
     "DESIGN.md section 10")
 add("C11", "exploration",
     "Hypothesis rule-based state machine over one long-lived process: after every compilation the result must equal "
